@@ -54,6 +54,7 @@ type Term struct {
 	Name string   // variable / UF name
 	Hi   int      // extract hi, or target width for zext/sext/int2bv
 	Lo   int
+	UB   *big.Int // known unsigned upper bound (inclusive) for BV terms, nil = unknown
 }
 
 func (t *Term) IsConst() bool { return t.Op == "const" }
@@ -367,7 +368,71 @@ nofold:
 	return mk(op, a.S, a, b)
 }
 
-func BVAdd(a, b *Term) *Term  { return bvBin("bvadd", a, b) }
+// ubound: a cheap unsigned upper bound of a BV term (nil = nothing better than the width).
+func ubound(t *Term) *big.Int {
+	if t.S.K != SBV {
+		return nil
+	}
+	if t.IsConst() {
+		return t.C
+	}
+	if t.UB != nil {
+		return t.UB
+	}
+	switch t.Op {
+	case "zext":
+		if b := ubound(t.Args[0]); b != nil {
+			return b
+		}
+		return mask(t.Args[0].S.W)
+	case "ite":
+		a, b := ubound(t.Args[1]), ubound(t.Args[2])
+		if a != nil && b != nil {
+			if a.Cmp(b) > 0 {
+				return a
+			}
+			return b
+		}
+	case "bvand":
+		a, b := ubound(t.Args[0]), ubound(t.Args[1])
+		if a != nil && (b == nil || a.Cmp(b) < 0) {
+			return a
+		}
+		return b
+	case "bvlshr", "bvudiv", "bvurem":
+		return ubound(t.Args[0])
+	}
+	return nil
+}
+
+// BVAdd narrows the adder when both operands are known to be small (sums of bits,
+// counters): the result is computed at the smallest sufficient width and zero-extended.
+func BVAdd(a, b *Term) *Term {
+	if a.S.K == SBV && a.S == b.S && !(a.IsConst() && b.IsConst()) {
+		ua, ub := ubound(a), ubound(b)
+		if ua != nil && ub != nil {
+			sum := new(big.Int).Add(ua, ub)
+			k := sum.BitLen()
+			if k == 0 {
+				k = 1
+			}
+			w := a.S.W
+			if k < w {
+				var r *Term
+				if k <= w/2 {
+					r = ZExt(w, bvBin("bvadd", Extract(k-1, 0, a), Extract(k-1, 0, b)))
+				} else {
+					r = bvBin("bvadd", a, b)
+				}
+				if !r.IsConst() && r.UB == nil {
+					r.UB = sum
+				}
+				return r
+			}
+		}
+	}
+	return bvBin("bvadd", a, b)
+}
 func BVSub(a, b *Term) *Term  { return bvBin("bvsub", a, b) }
 func BVMul(a, b *Term) *Term  { return bvBin("bvmul", a, b) }
 func BVUDiv(a, b *Term) *Term { return bvBin("bvudiv", a, b) }
@@ -465,6 +530,12 @@ func Extract(hi, lo int, a *Term) *Term {
 		if lo >= iw {
 			return BVU(w, 0)
 		}
+		if lo == 0 {
+			return ZExt(w, a.Args[0])
+		}
+	}
+	if a.Op == "ite" && (a.Args[1].IsConst() || a.Args[2].IsConst()) {
+		return Ite(a.Args[0], Extract(hi, lo, a.Args[1]), Extract(hi, lo, a.Args[2]))
 	}
 	return &Term{Op: "extract", S: BVSort(w), Args: []*Term{a}, Hi: hi, Lo: lo}
 }
